@@ -4,6 +4,7 @@
 //   case <id> sig <int|void> [hook]   with `hook` there is no signal at first: the first operation must be
 //   hlisten <script>          a listener on signal<T>::hook_up(fn): its first co_await creates the signal, subscribes,
 //                             then passes the collector to fn (which stores it as handle 0)
+//   hlisten0 <script>         the same, but fn drops the collector: the signal is gone before the co_await returns
 //   listen <script>           coroutine listener; script over {r,g,x}: what it does after the 1st, 2nd ... value
 //                             (r = re-await at once, g = wait at a gate until `wake`, then re-await, x = leave);
 //                             "-" = empty script; after the script is used up the listener re-awaits for ever
@@ -254,6 +255,14 @@ struct Case {
                         handles.emplace_back(std::move(col));
                     }, sc).detach();
                     head = "hlisten L" + std::to_string(id);
+                } else if (w[0] == "hlisten0" && w.size() == 2) {
+                    // the registration function does not keep the collector: the signal dies inside the first co_await
+                    hook_pending = false;
+                    handles.emplace_back(std::monostate{});
+                    int id = next_id++;
+                    std::string sc = w[1] == "-" ? std::string() : w[1];
+                    hook_listener<T>(cx, id, [this](col_t col) { em = sig_t(col).get_emitter(); }, sc).detach();
+                    head = "hlisten0 L" + std::to_string(id);
                 } else {
                     head = "bad-op";
                 }
